@@ -10,8 +10,8 @@ from vlib.runner import Check, ShardResult, Failure
 from vlib import archlab
 from checks import c15
 
-PARTS_Q = {"x86_32": 8, "x86_64": 10, "x86_16": 6, "arml": 2, "armb": 1, "armtl": 3, "armtb": 1, "aarch64l": 4,
-           "aarch64b": 1, "mips32l": 1, "mips32b": 2, "ppc32b": 2, "msp430": 2, "mepb": 2, "mepl": 1, "sh4": 1}
+PARTS_Q = {"x86_32": 6, "x86_64": 8, "x86_16": 3, "arml": 2, "armb": 1, "armtl": 2, "armtb": 1, "aarch64l": 3,
+           "aarch64b": 1, "mips32l": 1, "mips32b": 1, "ppc32b": 2, "msp430": 3, "mepb": 1, "mepl": 1, "sh4": 1}
 PARTS_T = {"x86_32": 40, "x86_64": 48, "x86_16": 32, "arml": 10, "armb": 8, "armtl": 8, "armtb": 8, "aarch64l": 16,
            "aarch64b": 12, "mips32l": 4, "mips32b": 4, "ppc32b": 4, "msp430": 4, "mepb": 4, "mepl": 4, "sh4": 2}
 # instances judged per instruction shape (mnemonic + operand skeleton) and shard
